@@ -5,6 +5,13 @@ C04 — the INS sample store stays sorted, partitioned and aligned under all upd
 Property theorems only; lemmas are in Proofs/{InsertMany,MergeInsert,Ordered}.lean.
 The model (Model/OrderedSamples.lean) is the literal index program of
 `nessai.samplers.importancesampler.OrderedSamples`.
+
+NOT MODELLED: keys are integers (`Smp.key : Int`), so NaN likelihoods have no counterpart (nessai rejects NaN
+log-likelihoods before they reach the store); `-inf` likelihoods are ordinary smallest keys for NumPy's sort /
+searchsorted / comparisons and are driven through the correspondence as the sentinel key -999.  States reached
+after an exception are not explored.  There is no separate abstract "spec" object: the observational theorems
+(`add_soft_observable`, `strict_live_eq`, `removed_count_eq`, `removed_all`, `finalise_moves_all`,
+`insert_at_searchsorted_is_merge`) play that role.
 -/
 namespace NessaiVerif.C04
 open NessaiVerif.Np NessaiVerif.Ordered
@@ -246,5 +253,34 @@ example : (run { strict := false, replAll := false }
     [.init [(⟨3, 1⟩, 1), (⟨1, 2⟩, 2), (⟨2, 3⟩, 3)], .thr 2, .remove,
      .add [(⟨2, 4⟩, 4), (⟨0, 5⟩, 5), (⟨5, 6⟩, 6)], .remove, .finalise]).toOption.map (·.nested)
     = some [0, 1, 2, 3, 4, 5] := by decide +kernel
+
+/-- non-vacuity, strict threshold: a new sample below the threshold is stored straight among the nested samples;
+live = exactly the stored samples at/above the threshold -/
+example : (run { strict := true, replAll := false }
+    [.init [(⟨3, 1⟩, 1), (⟨1, 2⟩, 2), (⟨2, 3⟩, 3)], .thr 2, .remove,
+     .add [(⟨1, 4⟩, 4), (⟨2, 5⟩, 5), (⟨4, 6⟩, 6)]]).toOption.map (fun s => (s.samples.map (·.map (·.key)), s.live, s.nested))
+    = some (some [1, 1, 2, 2, 3, 4], some [2, 3, 4, 5], [0, 1]) := by decide +kernel
+
+/-- non-vacuity, replace-all: a removal moves EVERY live sample, whatever the threshold (`live_points_indices = None`) -/
+example : (run { strict := false, replAll := true }
+    [.init [(⟨3, 1⟩, 1), (⟨1, 2⟩, 2), (⟨2, 3⟩, 3)], .thr 2, .remove]).toOption.map (fun s => (s.live, s.nested))
+    = some (none, [0, 1, 2]) := by decide +kernel
+
+/-- non-vacuity, empty initial batch followed by an addition -/
+example : (run { strict := false, replAll := false }
+    [.init [], .add [(⟨2, 1⟩, 1), (⟨1, 2⟩, 2)], .thr 2, .remove]).toOption.map (fun s => (s.live, s.nested))
+    = some (some [1], [0]) := by decide +kernel
+
+/-- the theorems apply to such a history (strict mode): it runs without error … -/
+example : (run { strict := true, replAll := false }
+    [.init [(⟨3, 1⟩, 1), (⟨1, 2⟩, 2)], .thr 2, .remove, .add [(⟨1, 4⟩, 4), (⟨4, 6⟩, 6)]]).toOption.isSome = true := by
+  decide +kernel
+
+/-- … and its final state is well formed, by `reachable_inv` -/
+example (s : OS) (hs : run { strict := true, replAll := false }
+    [.init [(⟨3, 1⟩, 1), (⟨1, 2⟩, 2)], .thr 2, .remove, .add [(⟨1, 4⟩, 4), (⟨4, 6⟩, 6)]] = .ok s) :
+    ∃ smp, WellFormed s smp := by
+  obtain ⟨smp, hinv⟩ := reachable_inv s ⟨true, false, _, _, by decide, hs⟩
+  exact ⟨smp, wellFormed_of_inv hinv⟩
 
 end NessaiVerif.C04
